@@ -81,6 +81,7 @@ def Mach.pos {α : Type} (env : Env α) (st : Mach α) : Sel → Nat
   | .last => if env.shape.bounded then st.n - 1 else st.cells.length - 1
   | .var => env.j
   | .tail => st.n - env.src.length + env.j
+  | .atLen => st.n         -- `a->nitems`: the slot right behind those `Array_Mark` walks
 
 /-- where `List_Link` puts a new cell: `List_Link(l, item, l->tail, NULL)` behind the last cell, `List_Link(l, item, prev(curr), curr)` in
     front of cell i (a Tree node, a Table slot: anywhere — the Mark instance presents the same set) -/
@@ -125,6 +126,9 @@ def Mach.step {α : Type} (env : Env α) (st : Mach α) : Ev → Mach α
   | .lenSrc => { st with n := env.src.length }
   | .reserveMore =>
     if st.n > st.cells.length then { st with cells := st.cells ++ List.replicate (st.n + st.n / 2 - st.cells.length) none } else st
+  | .reserveFor c =>
+    -- `Array_Reserve_More(a, a->nitems + c)`: the growth rule of `.reserveMore` for a size that `nitems` does not count yet
+    if st.n + c > st.cells.length then { st with cells := st.cells ++ List.replicate (st.n + c + (st.n + c) / 2 - st.cells.length) none } else st
   | .reserveLess => if st.cells.length > st.n + st.n / 2 then { st with cells := st.cells.take st.n } else st
   | .capLen => st
   | .capN => st
@@ -280,5 +284,94 @@ def View.elems {α : Type} (v : View α) : List α := v.cells.filterMap id
 
 /-- the elements the container holds when the operation completes -/
 def Mach.final {α : Type} (env : Env α) (st : Mach α) : List α := (st.presented env).filterMap id
+
+/-! ### element types whose Assign instance ALLOCATES (a record of several managed fields, deep-copied)
+
+  `assign(Array_Item(a, i), obj)` on an element type like
+  `struct Record { var name; var tags; }` with `Record_Assign(self, obj) { r->name = copy(o->name); r->tags = new(List, Ref); … }`
+  allocates once per field, and every allocation may run a threshold collection (`alloc` → `GC_Set` → `GC_Mark; GC_Sweep`).  At allocation
+  point `k` the fields `0 … k-1` of the new value are already stored in the target element: the objects they point to are reachable ONLY
+  through that element (the operand holds the originals, not the copies).  Whether the container's Mark instance presents the element at that
+  moment is the **publication order** of the operation: `nitems++` before `assign` (Array_Push as it is: the zeroed slot is walked by
+  `Array_Mark`, the stored fields are scanned) or after it (the element is invisible until it is complete: the collection frees what the
+  stored fields point to); the cell linked into the List / Tree before `assign` or after it; the entry of a Table built in the swap space.
+
+  `DMach` runs the same statement lists as `Mach` (its `m` component IS the `Mach` run: `DMach.step_m`) and records, for every `assign`
+  statement, one `AView` per allocation point: what the Mark instance presents, with the target element in its partly assigned state. -/
+
+/-- the element type's Assign instance as the container sees it: `parts old new` are the values the target element passes through, one per
+    allocation point (point k: the first k fields of `new` are stored, the others still hold what `old` held) -/
+structure Deep (α : Type) where
+  parts : α → α → List α
+
+/-- what a collection at one allocation point of an element's Assign instance finds -/
+structure AView (α : Type) where
+  /-- the round of the fill loop: which element of the operand is being assigned -/
+  j : Nat
+  /-- the allocation point: `k` fields of the new value are stored in the target -/
+  k : Nat
+  /-- the target element at that moment -/
+  part : α
+  /-- what the container's Mark instance presents at that moment -/
+  cells : List (Cell α)
+deriving DecidableEq
+
+structure DMach (α : Type) where
+  m : Mach α
+  aviews : List (AView α) := []      -- oldest first
+
+def DMach.avs {α : Type} (D : Deep α) (env : Env α) (old : α) (cellsOf : α → List (Cell α)) : List (AView α) :=
+  (D.parts old env.val).zipIdx.map fun qk => ⟨env.j, qk.2, qk.1, cellsOf qk.1⟩
+
+/-- **one statement**: `Mach.step`, and for an `assign` of an element (value) the allocation points of the Assign instance -/
+def DMach.step {α : Type} (D : Deep α) (env : Env α) (st : DMach α) (e : Ev) : DMach α :=
+  let more : List (AView α) :=
+    match e with
+    | .assign s =>
+      -- in place: the cell is a cell of the container; whether the Mark instance presents it is decided by `presented`
+      let p := st.m.pos env s
+      (match st.m.cells[p]? with
+       | some (some old) => DMach.avs D env old fun q => Mid.presented env.shape (st.m.cells.set p (some q)) st.m.n
+       | _ => [])
+    | .assignPend =>
+      -- a cell outside the structure (`List_Alloc`, `Tree_Alloc`, the swap space of a Table): no Mark instance presents it
+      (match st.m.pend with
+       | some (some old) => DMach.avs D env old fun _ => st.m.presented env
+       | _ => [])
+    | _ => []
+  { m := st.m.step env e, aviews := st.aviews ++ more }
+
+def DMach.run {α : Type} (D : Deep α) (env : Env α) (evs : List Ev) (st : DMach α) : DMach α := evs.foldl (DMach.step D env) st
+
+def DMach.eachLoop {α : Type} (D : Deep α) (env : Env α) (body : List Ev) : List Nat → DMach α → DMach α
+  | [], st => st
+  | j :: js, st => DMach.eachLoop D env body js (st.run D { env with j := j } body)
+
+def DMach.whileLoop {α : Type} (D : Deep α) (env : Env α) (body : List Ev) : Nat → DMach α → DMach α
+  | 0, st => st
+  | fuel + 1, st => if env.m < st.m.n then DMach.whileLoop D env body fuel (st.run D env body) else st
+
+def DMach.instr {α : Type} (D : Deep α) (env : Env α) (st : DMach α) : Instr → DMach α
+  | .seq evs => st.run D env evs
+  | .each body => DMach.eachLoop D env body (List.range (if env.shape.bounded then st.m.n else st.m.cells.length)) st
+  | .whileLen body => DMach.whileLoop D env body (st.m.n + 1) st
+  | .fill body => DMach.eachLoop D env body (List.range env.src.length) st
+
+def DMach.exec {α : Type} (D : Deep α) (env : Env α) (prog : List Instr) (st : DMach α) : DMach α := prog.foldl (DMach.instr D env) st
+
+def DMach.initCap {α : Type} (elems : List α) (spare : List (Cell α)) : DMach α := { m := Mach.initCap elems spare }
+
+/-- **an operation on a container of deep-copied elements**: the states its allocation points see, and the state when it completes -/
+def runOpD {α : Type} (D : Deep α) (k : Kind) (op : Op) (env : Env α) (elems : List α) (spare : List (Cell α) := []) : DMach α :=
+  (DMach.initCap elems spare).exec D env (prog k (elems.isEmpty) op)
+
+def AView.ok {α : Type} (v : AView α) : Bool := v.cells.all Option.isSome
+
+def AView.elems {α : Type} (v : AView α) : List α := v.cells.filterMap id
+
+/-- the record of `nf` pointer fields: at allocation point `k` (0 … nf: the last one lies behind the last store) the first `k` words are the
+    new value's, the others the old one's -/
+def Deep.words (nf : Nat) : Deep (List Nat) where
+  parts old new := (List.range (nf + 1)).map fun k => new.take k ++ old.drop k
 
 end Cello.Heap.Mid
